@@ -528,7 +528,11 @@ func abstractRun(a *absCtx, r *ScenarioRun, drvDir string) ([]map[string]any, er
 					mf = append(mf, []string{m[0], m[1]})
 				}
 				rec["mfail"] = mf
-				rec["lossless"] = losslessJSON(a, st, e, logKind(logs))
+				rec["lossless"] = losslessJSON(a, st, e, logKind(logs), "")
+				rec["docok"] = "na"
+				if x.Doc != "" {
+					rec["docok"] = losslessJSON(a, st, e, logKind(logs), x.Doc)
+				}
 				rec["nm"] = len(st.Matchers)
 				rec["panic"] = e.Panic != "" // the call did not return: a real behaviour, judged by the contract
 				rec["bufsame"] = true
@@ -611,11 +615,15 @@ func goJSONText(v *Val) (string, bool) {
 // losslessJSON: does the text a MatchJSON / MatchStandaloneJSON call just stored parse to the same
 // JSON value as its input (C14)? "yes" / "no" / "na". The stored text is read by the harness's
 // own JSON reader; member order is ignored, scalars are compared raw.
-func losslessJSON(a *absCtx, st *Step, e *RawEvent, logk string) string {
-	if (st.API != "json" && st.API != "sjson") || len(st.Matchers) > 0 || st.Val == nil || (logk != "added" && logk != "updated") {
+// With expect != "" the stored text is compared with that document instead (matchers allowed).
+func losslessJSON(a *absCtx, st *Step, e *RawEvent, logk string, expect string) string {
+	if (st.API != "json" && st.API != "sjson") || (len(st.Matchers) > 0 && expect == "") || st.Val == nil || (logk != "added" && logk != "updated") {
 		return "na"
 	}
 	in, ok := "", false
+	if expect != "" {
+		in, ok = expect, true
+	} else {
 	switch st.Val.K {
 	case "str", "bytes", "rawmsg":
 		b, _ := base64.StdEncoding.DecodeString(st.Val.B64)
@@ -624,6 +632,7 @@ func losslessJSON(a *absCtx, st *Step, e *RawEvent, logk string) string {
 		in, ok = goJSONText(st.Val)
 	case "go":
 		in, ok = a.goJSON[st.Val.Name]
+	}
 	}
 	if !ok {
 		return "na"
